@@ -96,6 +96,13 @@ def check_trace(script_lines, out_lines, mode="fifo"):
                 return "load failed"
         elif op == "lq_push":
             o = nxt()
+            # a link target of PATH_MAX (4096) bytes or more cannot be created: the push must fail and change nothing
+            m = int(t[2])
+            tlen = (len(t[1]) - 1) // 2 + sum(2 if (m >> i) & 1 else 1 for i in range(m.bit_length()))
+            if tlen >= 4096:
+                if o != "push err":
+                    return "push of a %d-byte link target reported '%s'" % (tlen, o)
+                continue
             if o != "push ok":
                 return "push of %s reported '%s'" % (t[1], o)
             ref.push(t[1], int(t[2]))
@@ -192,6 +199,8 @@ def rand_path(rng):
     k = rng.random()
     if k < 0.03:
         ln = rng.choice([3900, 1023, 1024, 1025])
+    elif k < 0.06:
+        ln = rng.choice([4030, 4060, 4085])     # with a long flag prefix the link target passes PATH_MAX: the push fails
     else:
         ln = rng.randint(1, 40)
     comps = []
